@@ -50,6 +50,7 @@ func Plan(out string, seed uint64, tier string, scenario string, count int, epoc
 		}
 		// fixed part of every quick run (each covers inputs the seeded-defect trials need), plus one rotating scenario
 		names = []string{"basic", "all_ops_one_block", "mass_slashing", "exits_then_ejection", "eth1_votes"}
+		others = remove(others, "sync_same_multiset") // fixed last chain of every quick run, see below
 		var rest []string
 		for _, n := range others {
 			used := false
@@ -68,6 +69,7 @@ func Plan(out string, seed uint64, tier string, scenario string, count int, epoc
 		for i := 0; i < n; i++ {
 			names = append(names, rest[(off+i)%len(rest)])
 		}
+		names = append(names, "sync_same_multiset")
 	} else {
 		n := 60
 		if count > 0 {
@@ -106,9 +108,18 @@ func Plan(out string, seed uint64, tier string, scenario string, count int, epoc
 		if quick {
 			pr.CoverForks[(i+2)%5] = true
 		}
-		pr.Corrupt = (totalCorrupt + len(names) - 1) / len(names)
-		pr.Cancel = (totalCancel + len(names) - 1) / len(names)
-		pr.Engine = (totalEngine + len(names) - 1) / len(names)
+		div := len(names)
+		if quick && scenario == "" {
+			div-- // the small sync_same_multiset chain at the end has its own small budget
+		}
+		pr.Corrupt = (totalCorrupt + div - 1) / div
+		pr.Cancel = (totalCancel + div - 1) / div
+		pr.Engine = (totalEngine + div - 1) / div
+		if quick && scenario == "" && n == "sync_same_multiset" {
+			pr.CoverForks = [5]bool{}
+			pr.Corrupt, pr.Cancel, pr.Engine = 10, 0, 0
+			pr.Epochs = 8
+		}
 		pr.Genesis = 3
 		if !quick {
 			pr.Genesis = 9
@@ -184,6 +195,15 @@ func Plan(out string, seed uint64, tier string, scenario string, count int, epoc
 		}
 	}
 	return plan
+}
+
+func remove(l []string, x string) (out []string) {
+	for _, s := range l {
+		if s != x {
+			out = append(out, s)
+		}
+	}
+	return
 }
 
 // CLI: chain <outdir> [--scenario name] [--count n] [--epochs n] | chain --selfcheck <chaindir>...
@@ -303,6 +323,8 @@ func CLI(args []string) int {
 // RequiredQuick: counters (summary.json: per_fork.<fork>.<k> for "<fork>.<k>", else counts.<k>) that must be non-zero in
 // every quick run.
 var RequiredQuick = []string{
+	// round 11
+	"consecutive_sync_committees_same_multiset_different_order",
 	// round 10
 	"pslash_evidence_epoch_outside_window_total", "aslash_evidence_epoch_outside_window_total",
 	"corrupt.pslash_withdrawable_evidence_inside_window", "corrupt.aslash_withdrawable_evidence_inside_window",
